@@ -55,7 +55,9 @@ func (n *NonceHash) Validate(nonce string) error {
 		return fmt.Errorf("%w: %v", errInvalidNonce, err) //nolint:errorlint
 	}
 
-	if ts := time.UnixMilli(int64(binary.BigEndian.Uint64(b))); time.Since(ts) > nonceLifetime { // nolint:gosec // G115
+	// A timestamp ahead of the clock is as invalid as one older than the lifetime.
+	ts := time.UnixMilli(int64(binary.BigEndian.Uint64(b))) // nolint:gosec // G115
+	if age := time.Since(ts); age < 0 || age > nonceLifetime {
 		return errInvalidNonce
 	}
 
